@@ -37,7 +37,7 @@ ASSUMPTIONS = [
     "halmos semantics of a failing vm.assert*: the whole path ends in a failure (Foundry: the cheatcode call reverts) - both make the test fail",
     "the path that continues after an assert is not required to exclude the failing inputs (the failing path exists for them)",
 ]
-WATCHDOG_S = {"quick": 1500, "thorough": 7200}
+WATCHDOG_S = {"quick": 2400, "thorough": 10800}
 
 MANIFEST = {
     "technique": "table-driven generated programs: every Forge-std assert signature (selector recomputed by keccak) called through real bytecode with own ABI encoding at nesting depth 1-3, relation decided by an independent Python model per valuation; coverage oracle for vm.assume",
